@@ -14,7 +14,9 @@ RULE = ("case = CFG description without useless symbols: either a random grammar
         "start symbol); is_llone_parsable() must equal 'predict sets of each variable pairwise disjoint'; when LL(1): "
         "for all words <=3 over terminals+foreign symbol, all members of length 4 and their one-symbol extensions, "
         "get_llone_parse_tree returns a tree (validated as a real derivation of the word) iff the word is a member and "
-        "raises NotParsableException otherwise, never another error. Non-trivial: LL(1) grammar with a nullable "
+        "raises NotParsableException otherwise, never another error. The whole battery runs four times: on a fresh "
+        "grammar object and on objects that first answered is_empty / generating / reachable (warmed), contains / nullable "
+        "/ is_empty (nullable_first), or an earlier LL(1) verdict / is_empty / is_finite (reparsed). Non-trivial: LL(1) grammar with a nullable "
         "variable and >=2 members (<=4), or a non-LL(1) grammar with >=2 members. Distinct = SHA-1 of canonical JSON.")
 ASSUMPTIONS = ["textbook FIRST/FOLLOW/PREDICT in vlib/ref_cfg.py", "grammars have no useless symbol (the property's domain)"]
 BUDGET = {"quick": 500, "thorough": 6000}
@@ -142,21 +144,34 @@ def run_case(case):
     d = case["g"]
     R = ref_cfg.from_desc(d)
     res = None
-    for phase in ("fresh", "warmed"):
+    first = None
+    for phase in ("fresh", "warmed", "nullable_first", "reparsed"):
         with guard(failures, "build"):
             g = ref_cfg.build_lib(d)
+            # the grammar object has answered other queries, in different orders, before the parser is built on it
             if phase == "warmed":
-                # the grammar object has answered other queries before the parser is built on it
                 g.is_empty()
                 g.get_generating_symbols()
                 g.get_reachable_symbols()
                 g.remove_useless_symbols()
+            elif phase == "nullable_first":
+                g.contains([])
+                g.get_nullable_symbols()
+                g.is_empty()
+                g.remove_useless_symbols()
+            elif phase == "reparsed":
+                LLOneParser(g).is_llone_parsable()
+                g.is_empty()
+                g.is_finite()
             parser = LLOneParser(g)
         if failures:
             return {"failures": failures}
-        res = check_parser(R, d, parser, failures, "" if phase == "fresh" else "@warmed")
+        res = check_parser(R, d, parser, failures, "" if phase == "fresh" else "@" + phase)
+        if first is None:
+            first = res
         if failures:
             break
+    res = first if first is not None else res
     res["failures"] = failures
     return res
 
